@@ -140,6 +140,8 @@ struct Engine {
 	virtual Json execute(const Json & plan, bool verbose) = 0;
 	// runs in the worker: null => property held on this run; else {clause, detail, op?}
 	virtual Json judge(const Json & plan, const ChildOutcome & out, Ctx & ctx) = 0;
+	// worker-side step before a plan is executed: may add derived data (e.g. a step cap computed from reference runs)
+	virtual void prepare(Json & plan, Ctx & ctx) { (void)plan; (void)ctx; }
 	// plan that performs operation k "first in a fresh process" (attribution of crashes, references)
 	virtual Json isolate(const Json & plan, int k) { (void)plan; (void)k; return Json(); }
 	// true: a sanitizer report / crash anywhere is a violation of this property (no input-level carve-out)
